@@ -579,6 +579,12 @@ theorem facet_effective_iff_chain (C : Chain α) (h : Accepted C) (v : Val α) :
     validEff C v = true ↔ validChain C v = true :=
   eff_iff_chain C h v
 
+/-- What the build stores for an accepted type is what the schema declares: no enumeration value was
+    dropped (`stored` keeps only the values the base type accepts, facets.py:631-655), so the theorems
+    above, stated on declared steps, speak about the built objects. -/
+theorem facet_stored_chain_of_accepted (C : Chain α) (h : Accepted C) : storedChain C = C :=
+  storedChain_of_accepted C h
+
 /-- The chained validation narrows by construction, whatever the build checked: a value valid for the
     derived type passed every validator of the base type. -/
 theorem facet_derived_valid_base_valid (C : Chain α) (D : FSet α) (v : Val α)
